@@ -279,9 +279,23 @@ def _worker(items, base):
     return out
 
 
-def shared_options_driver(rep):
+def _same_behaviour(t1, t2, cfg):
+    """do two program texts behave alike on the basic inputs?"""
+    p1, p2 = asm.assemble(t1), asm.assemble(t2)
+    for inp in drive.make_inputs_basic():
+        o1 = drive.observed_outcome(interp.run(p1, drive.ctx_for(inp, cfg), fuel=drive.AVM_FUEL), TICK)
+        o2 = drive.observed_outcome(interp.run(p2, drive.ctx_for(inp, cfg), fuel=drive.AVM_FUEL), TICK)
+        if o1 != o2 and "RESOURCE" not in (o1[0], o2[0]):
+            return False
+    return True
+
+
+def shared_options_driver(rep, mode="text"):
     """One OptimizeOptions OBJECT used for several compilations (as Router.compile_program does for the approval
-    and the clear-state program): what the second program compiles to must not depend on the first."""
+    and the clear-state program): what the second program compiles to must not depend on the first.
+    mode 'text': any difference of the emitted text (C03, C11-style); 'behaviour': only a difference in what the
+    programs do on the basic inputs (C01, C02); 'accept': only a rejection of a program that is accepted with a
+    fresh options object (C20)"""
     import pyteal as pt
     progs = {
         "reserved": {"mode": "A", "vars": {"r": ["u", 7]}, "subs": {},
@@ -292,32 +306,53 @@ def shared_options_driver(rep):
                   "main": ["Seq", ["Store", "a", ["Int", 1]], ["GPut", ["Itob", ["Load", "a"]], ["Int", 1]], ["Store", "b", ["Int", 2]],
                            ["GPut", ["Itob", ["Load", "b"]], ["Int", 2]], ["Int", 1]]},
         "shared_slot": gen_sub.f4("in_loop", "u", 1),
+        # v := 7; v + <v read through a DynamicScratchVar>: the adjacent store/load of v must survive
+        "dyn": {"mode": "A", "vars": {"v": "u", "w": "u"}, "subs": {},
+                "main": ["Seq", ["Store", "v", ["Int", 7]], ["Store", "w", ["Add", ["Load", "v"], ["DynLoad", "v"]]],
+                         ["GPut", ["Bytes", "72"], ["Load", "w"]], ["Int", 1]]},
     }
     names = sorted(progs)
-    for version, fp in ((6, None), (8, True), (8, False), (10, None)):
-        for a in names:
-            for b in names:
-                kw = {"scratch_slots": True}
-                if fp is not None:
-                    kw["frame_pointers"] = fp
-                cfg = rb.Cfg(version, "A")
-                try:
-                    shared = pt.OptimizeOptions(**kw)
-                    pt.compileTeal(rb.build(progs[a], cfg, TICK), pt.Mode.Application, version=version, optimize=shared)
-                    t_shared = pt.compileTeal(rb.build(progs[b], cfg, TICK), pt.Mode.Application, version=version, optimize=shared)
-                    t_fresh = pt.compileTeal(rb.build(progs[b], cfg, TICK), pt.Mode.Application, version=version,
-                                             optimize=pt.OptimizeOptions(**kw))
-                except drive.PT_ERRORS:
-                    rep.add("shared_options_pterr")
+    # the first program is compiled at version va, the second at vb (also DESCENDING across the frame-pointer and
+    # default-optimisation boundaries), under option objects that leave 0, 1 or 2 settings to their defaults
+    kws = [{"scratch_slots": True}, {}, {"scratch_slots": True, "frame_pointers": False}, {"frame_pointers": True}]
+    for va in (6, 8, 10):
+        for vb in (6, 8, 10):
+            for ki, kw in enumerate(kws):
+                if kw.get("frame_pointers") is True and min(va, vb) < 8:
                     continue
-                rep.add("traces_validated")
-                rep.add("shared_options_pairs")
-                if t_shared != t_fresh:
-                    rep.violations.append({
-                        "driver": "shared-options", "size": 2,
-                        "title": "program %r compiled with an OptimizeOptions object previously used for %r differs from the same program compiled with a fresh, equal options object (v%d fp=%s)" % (b, a, version, fp),
-                        "first": a, "second": b, "version": version, "fp": fp, "teal": t_shared, "pivot_teal": t_fresh,
-                        "features": dict(optimizer_diff_features(t_fresh, t_shared), kind="shared-options")})
+                for a in names:
+                    for b in names:
+                        ca, cb = rb.Cfg(va, "A"), rb.Cfg(vb, "A")
+                        try:
+                            t_fresh = pt.compileTeal(rb.build(progs[b], cb, TICK), pt.Mode.Application, version=vb,
+                                                     optimize=pt.OptimizeOptions(**kw))
+                        except drive.PT_ERRORS:
+                            rep.add("shared_options_pterr")
+                            continue
+                        shared = pt.OptimizeOptions(**kw)
+                        try:
+                            pt.compileTeal(rb.build(progs[a], ca, TICK), pt.Mode.Application, version=va, optimize=shared)
+                        except drive.PT_ERRORS:
+                            pass
+                        try:
+                            t_shared = pt.compileTeal(rb.build(progs[b], cb, TICK), pt.Mode.Application, version=vb, optimize=shared)
+                        except drive.PT_ERRORS as e:
+                            t_shared = "REJECTED: %s" % (str(e)[:200],)
+                        rep.add("traces_validated")
+                        rep.add("shared_options_pairs")
+                        if t_shared != t_fresh and mode == "accept" and not t_shared.startswith("REJECTED"):
+                            continue
+                        if t_shared != t_fresh and mode == "behaviour" and not t_shared.startswith("REJECTED") and \
+                                _same_behaviour(t_shared, t_fresh, cb):
+                            continue
+                        if t_shared != t_fresh:
+                            rep.violations.append({
+                                "driver": "shared-options", "size": 2,
+                                "title": "program %r (v%d) compiled with an OptimizeOptions object %r previously used for %r (v%d) differs from the same program compiled with a fresh, equal options object%s" % (
+                                    b, vb, kw, a, va, ": " + t_shared[:120] if t_shared.startswith("REJECTED") else ""),
+                                "first": a, "second": b, "version": vb, "first_version": va, "kw": ki, "fp": kw.get("frame_pointers"),
+                                "teal": t_shared, "pivot_teal": t_fresh,
+                                "features": dict(optimizer_diff_features(t_fresh, t_shared), kind="shared-options")})
 
 
 def run(tier):
@@ -360,12 +395,16 @@ def run(tier):
     return rep.finish()
 
 
-def replay(case):
+def replay_shared(case, mode="text", pid=PID):
+    return replay(dict(case, driver="shared-options"), mode, pid)
+
+
+def replay(case, mode="text", pid=PID):
     if case.get("driver") == "shared-options":
-        rep = common.Report(PID, "quick")
-        shared_options_driver(rep)
-        hits = [v for v in rep.violations if (v["first"], v["second"], v["version"], v["fp"]) ==
-                (case["first"], case["second"], case["version"], case["fp"])]
+        rep = common.Report(pid, "quick")
+        shared_options_driver(rep, mode)
+        hits = [v for v in rep.violations if (v["first"], v["second"], v["version"], v.get("first_version"), v.get("kw")) ==
+                (case["first"], case["second"], case["version"], case.get("first_version"), case.get("kw"))]
         for v in hits:
             print("still violates:", v["title"])
         return bool(hits)
